@@ -9,8 +9,8 @@ import (
 var Dict = [][]byte{
 	{},
 	{0x00},
-	{0xC2},             // lone UTF-8 lead byte
-	{0xE2, 0x82},       // truncated 3-byte sequence
+	{0xC2},       // lone UTF-8 lead byte
+	{0xE2, 0x82}, // truncated 3-byte sequence
 	{0xFF},
 	{0xF0, 0x9F, 0x98}, // truncated 4-byte sequence
 	{0x00, 0x41, 0x00}, // odd-length BMP
@@ -68,12 +68,12 @@ var Dict = [][]byte{
 	{10, 0, 0, 1},            // private v4
 	{10, 0, 0, 0, 255, 0, 0}, // odd-length network
 	make([]byte, 15), make([]byte, 16), make([]byte, 17), make([]byte, 32), make([]byte, 8),
-	{0x2a, 0x80},       // unterminated OID arc
-	{0x80, 0x01},       // OID with leading 0x80
-	{0x55, 0x1d, 0x11}, // SAN OID
-	{0x30, 0x00},       // empty SEQUENCE bytes
+	{0x2a, 0x80},             // unterminated OID arc
+	{0x80, 0x01},             // OID with leading 0x80
+	{0x55, 0x1d, 0x11},       // SAN OID
+	{0x30, 0x00},             // empty SEQUENCE bytes
 	{0x30, 0x03, 0x02, 0x01}, // truncated nested
-	{0x30, 0x80},       // indefinite length
+	{0x30, 0x80},             // indefinite length
 	{0x05, 0x00},
 	{0x01, 0x01, 0xff},
 	{0x02, 0x01, 0x00},
